@@ -184,7 +184,7 @@ Record frame (sd : side) (w w' : world) : Prop := mkFrame {
   F_ptr   : forall x, obj_okP w x -> ptr w' sd x = ptr w sd x;
   F_ptr'  : forall x, ptr w' sd x = ptr w sd x \/ ptr w' sd x = None;
   F_fresh : fresh w <= fresh w';
-  F_nreal : nreal w' = nreal w;
+  F_nreal : nreal w <= nreal w';
   F_nunits: nunits w' = nunits w;
   F_psize : forall u, psize w' sd u = psize w sd u;
   F_pfixed: forall u, pfixed w' sd u = pfixed w sd u
@@ -196,7 +196,7 @@ Proof. destruct x; simpl; lia. Qed.
 Lemma frame_trans sd w1 w2 w3 : frame sd w1 w2 -> frame sd w2 w3 -> frame sd w1 w3.
 Proof.
   intros [A1 B1 C1 D1 E1 G1 H1 K1] [A2 B2 C2 D2 E2 G2 H2 K2]. constructor; try congruence; try lia.
-  - intros x Hx. rewrite B2, B1; auto. eapply okP_mono; eauto. lia.
+  - intros x Hx. rewrite B2, B1; auto. eapply okP_mono; [| |exact Hx]; lia.
   - intros x. destruct (C2 x) as [P|P]; [rewrite P; apply C1 | now right].
 Qed.
 Lemma frame_InvS sd w w' : frame sd w w' -> InvS sd w -> InvS sd w'.
@@ -1428,11 +1428,581 @@ Proof.
   rewrite Pu. reflexivity.
 Qed.
 
+
+(* ================================================================ empty() and replace_with(None) *)
+
+
+Lemma new_missing_comm sd u L v w :
+  new_missing (upd_ports w sd u L) sd v = (upd_ports (fst (new_missing w sd v)) sd u L, snd (new_missing w sd v)).
+Proof. reflexivity. Qed.
+Lemma new_missings_comm sd u L v n : forall w,
+  new_missings (upd_ports w sd u L) sd v n =
+  (upd_ports (fst (new_missings w sd v n)) sd u L, snd (new_missings w sd v n)).
+Proof.
+  induction n as [|n IH]; intro w; [reflexivity|].
+  cbn [new_missings]. rewrite new_missing_comm.
+  destruct (new_missing w sd v) as [w1 m]. cbn [fst snd]. rewrite IH.
+  destruct (new_missings w1 sd v n) as [w2 ms]. reflexivity.
+Qed.
+Lemma upd_ports_twice sd u L L' w : weq (upd_ports (upd_ports w sd u L) sd u L') (upd_ports w sd u L').
+Proof.
+  constructor; intros; try reflexivity. unfold upd_ports; simpl.
+  destruct (side_eqb s sd && (v =? u)); reflexivity.
+Qed.
+Lemma weq_sym w w' : weq w w' -> weq w' w.
+Proof. intros [A B C D E F G]. constructor; intros; symmetry; auto. Qed.
+
+Lemma empty_good sd u w : InvS sd w -> u < nunits w -> good sd w (empty w sd u).
+Proof.
+  intros HI Hu. unfold empty, ok, good. cbn [fst].
+  set (l := ports w sd u). set (B := undock_all w sd l).
+  pose proof (slice_J sd u w [] l [] [] HI Hu) as J0.
+  assert (JA : J sd u [] (upd_ports B sd u ([] ++ [] ++ []))).
+  { apply J0; [unfold l; now rewrite app_nil_r | constructor | intros y [] | intros y []]. }
+  simpl app in JA. set (A := upd_ports B sd u []) in *.
+  destruct (undock_all_misc sd l w) as (Po & St & Fr & Frm). fold B in Po, St, Fr, Frm.
+  assert (HuA : u < nunits A) by (destruct St as [S1 _ _ _ _]; simpl; lia).
+  destruct (init_missing_fresh sd u A JA (ports_upd_ports_eq sd B u []) HuA) as (J1 & L1 & Fr1 & St1).
+  assert (WQ : weq (init_missing A sd u) (init_missing B sd u)).
+  { unfold init_missing, A. rewrite new_missings_comm. cbn [psize upd_ports].
+    destruct (new_missings B sd u (psize B sd u)) as [B5 ms]. cbn [fst snd]. apply upd_ports_twice. }
+  assert (IA : InvS sd (init_missing A sd u)).
+  { eapply J_Inv; [exact J1|]. intros _. rewrite L1. destruct St1 as [_ _ _ S4 _]. now rewrite S4. }
+  split; [|split].
+  - eapply weq_InvS; eauto.
+  - eapply weq_frame; [exact WQ|]. eapply frame_trans; [exact Frm|]. eapply frame_trans; [apply frame_upd_ports | exact Fr1].
+  - eapply weq_stat; [exact WQ|]. eapply stat_trans; [exact St|]. eapply stat_trans; [|exact St1]. constructor; auto.
+Qed.
+
+(* ================================================================ replace_with(None) *)
+Lemma bypass_Good ios : forall w, Inv w -> (forall i o, In (i, o) ios -> obj_okP w i /\ obj_okP w o) ->
+  pre_bypass w ios = true -> Good w (bypass w ios).
+Proof.
+  induction ios as [|[i o] ios IH]; intros w HI Ok Pre; cbn [bypass pre_bypass] in *.
+  - now apply Good_same.
+  - assert (Oki : obj_okP w i /\ obj_okP w o) by (apply Ok; now left).
+    assert (Ok' : forall w1, stat w w1 -> forall i' o', In (i', o') ios -> obj_okP w1 i' /\ obj_okP w1 o').
+    { intros w1 St i' o' H. destruct (Ok i' o' (or_intror H)). split; eapply stat_okP; eauto. }
+    destruct (ptr w SOut i) as [src|] eqn:P.
+    + apply andb_true_iff in Pre. destruct Pre as [P1 P2].
+      destruct (InvS_side SOut w HI) as [IS _].
+      apply Good_andthen.
+      * apply (good_Good SOut); auto. apply replace_good; auto; [eapply I_uptr; eauto | apply Oki].
+      * intros w1 E I1 St. rewrite E in P2. apply IH; auto.
+    + destruct (ptr w SIn o) as [snk|] eqn:Q.
+      * apply andb_true_iff in Pre. destruct Pre as [P1 P2].
+        destruct (InvS_side SIn w HI) as [IS _].
+        apply Good_andthen.
+        -- apply (good_Good SIn); auto. apply replace_good; auto; [eapply I_uptr; eauto | apply Oki].
+        -- intros w1 E I1 St. rewrite E in P2. apply IH; auto.
+      * apply IH; auto. apply (Ok' w (stat_refl w)).
+Qed.
+
+Lemma replace_with_none_Good w u : Inv w -> u < nunits w ->
+  pre_bypass w (combine (ports w SIn u) (ports w SOut u)) = true -> Good w (replace_with w u None).
+Proof.
+  intros HI Hu Pre. unfold replace_with.
+  apply Good_andthen.
+  - apply bypass_Good; auto. intros i o H. split.
+    + apply in_combine_l in H. destruct (InvS_side SIn w HI) as [IS _]. eapply I_ok; eauto.
+    + apply in_combine_r in H. destruct (InvS_side SOut w HI) as [IS _]. eapply I_ok; eauto.
+  - intros w1 _ I1 St1. apply Good_andthen.
+    + apply (good_Good SIn); auto. apply empty_good; [apply (InvS_side SIn w1 I1) | destruct St1 as [A _ _ _ _]; lia].
+    + intros w2 _ I2 St2. apply (good_Good SOut); auto. apply empty_good; [apply (InvS_side SOut w2 I2)|].
+      destruct St1 as [A _ _ _ _]. destruct St2 as [A' _ _ _ _]. lia.
+Qed.
+
+
+
+(* ================================================================ unit construction with given inlets / outlets *)
+Lemma weq_J sd u R w w' : weq w w' -> J sd u R w -> J sd u R w'.
+Proof.
+  intros [A B C D E F G] [a b c d e f g h k]. constructor.
+  - intros v x. rewrite A, B. apply a.
+  - intros v n. rewrite A, B. apply b.
+  - intro v. rewrite A. apply c.
+  - intros v. rewrite A, C, D. apply d.
+  - intros v x. rewrite A. intro HI. apply e in HI. destruct x; simpl in *; congruence.
+  - intro n. rewrite F, B. apply f.
+  - intro v. rewrite G, A. apply g.
+  - intros x v. rewrite B, G. apply h.
+  - intros x Hx. rewrite A. now apply k.
+Qed.
+
+Record stat2 (w w' : world) : Prop := mkStat2 {
+  S2_nunits : nunits w' = nunits w;
+  S2_nreal  : nreal w <= nreal w';
+  S2_fresh  : fresh w <= fresh w';
+  S2_psize  : forall s v, psize w' s v = psize w s v;
+  S2_pfixed : forall s v, pfixed w' s v = pfixed w s v
+}.
+Lemma stat_stat2 w w' : stat w w' -> stat2 w w'.
+Proof. intros [A B C D E]. constructor; auto. lia. Qed.
+Lemma stat2_refl w : stat2 w w.
+Proof. constructor; auto. Qed.
+Lemma stat2_trans w1 w2 w3 : stat2 w1 w2 -> stat2 w2 w3 -> stat2 w1 w3.
+Proof. intros [A B C D E] [A' B' C' D' E']. constructor; try congruence; try lia; intros; rewrite ?D', ?E'; auto. Qed.
+Lemma stat2_okP w w' x : stat2 w w' -> obj_okP w x -> obj_okP w' x.
+Proof. intros [A B C D E]. apply okP_mono; lia. Qed.
+
+Section Ctor.
+Variable sd : side.
+Variable u : nat.
+
+(* the invariant of the world whose list of u is (virtually) L *)
+Definition Jv (R L : list obj) (w : world) : Prop := J sd u R (upd_ports w sd u L).
+
+Lemma Jv_of_J w L : J sd u [] w -> ports w sd u = L -> Jv [] L w.
+Proof.
+  intros HJ E. unfold Jv. eapply weq_J; [|exact HJ].
+  constructor; intros; try reflexivity. unfold upd_ports; simpl.
+  destruct (side_eqb s sd) eqn:Es; simpl; [|reflexivity]. apply side_eqb_eq in Es. subst s.
+  destruct (v =? u) eqn:Ev; [|reflexivity]. apply Nat.eqb_eq in Ev. subst v. now rewrite E.
+Qed.
+
+Lemma redock_Jv x R L w : Jv (x :: R) L w -> u < nunits w -> obj_okP w x -> Jv R L (redock w sd u x).
+Proof.
+  intros HJ Hu Hx. unfold Jv in *. eapply weq_J; [apply redock_comm|]. apply redock_J; auto.
+Qed.
+
+Lemma J_add W l1 l2 x : J sd u [] W -> u < nunits W -> ports W sd u = l1 ++ l2 -> ~ In x (l1 ++ l2) -> obj_okP W x ->
+  J sd u [x] (upd_ports W sd u (l1 ++ [x] ++ l2)).
+Proof.
+  intros [A B C D E F G H K] Hu EL NI Ok. constructor.
+  - intros v y. rewrite ports_upd_ports. destruct (v =? u) eqn:Ev.
+    + apply Nat.eqb_eq in Ev. subst v. intro HI. destruct (obj_dec y x) as [->|N]; [right; split; [reflexivity | now left]|].
+      left. destruct (A u y) as [Q|[_ []]]; [|exact Q]. rewrite EL. apply in_app_or in HI. apply in_or_app.
+      destruct HI as [HI|[HI|HI]]; [now left | congruence | now right].
+    + intro HI. destruct (A v y HI) as [Q|[_ []]]. now left.
+  - intros v n Q. apply B in Q. rewrite ports_upd_ports. destruct (v =? u) eqn:Ev; [|exact Q].
+    apply Nat.eqb_eq in Ev. subst v. rewrite EL in Q. apply in_app_or in Q. apply in_or_app.
+    destruct Q; [now left | right; right; assumption].
+  - intro v. rewrite ports_upd_ports. destruct (v =? u); [|apply C].
+    pose proof (C u) as ND. rewrite EL in ND. apply NoDup_app_iff in ND. destruct ND as (N1 & N2 & N3).
+    apply NoDup_app_iff. split; [exact N1|]. split.
+    + constructor; [intro Q; apply NI; apply in_or_app; now right | exact N2].
+    + intros y Hy [<-|Hy']; [apply NI; apply in_or_app; now left | now apply (N3 y)].
+  - intros v N. rewrite ports_upd_ports_neq by assumption. now apply D.
+  - intros v y. rewrite ports_upd_ports. destruct (v =? u); [|apply E].
+    intro HI. apply in_app_or in HI. destruct HI as [HI|[<-|HI]]; [|exact Ok|];
+      apply (E u); rewrite EL; apply in_or_app; [now left | now right].
+  - exact F.
+  - intros v L. rewrite ports_upd_ports. simpl in L. destruct (v =? u) eqn:Ev; [|now apply G].
+    apply Nat.eqb_eq in Ev. subst v. lia.
+  - exact H.
+  - intros y [<-|[]]. rewrite ports_upd_ports_eq. apply in_or_app. right. now left.
+Qed.
+
+Lemma Jv_add w l1 l2 x : Jv [] (l1 ++ l2) w -> u < nunits w -> ~ In x (l1 ++ l2) -> obj_okP w x ->
+  Jv [x] (l1 ++ [x] ++ l2) w.
+Proof.
+  intros HJ Hu NI Ok. unfold Jv in *. eapply weq_J; [apply (upd_ports_twice sd u (l1 ++ l2))|].
+  apply J_add; [exact HJ | exact Hu | apply ports_upd_ports_eq | exact NI | exact Ok].
+Qed.
+
+Lemma J_R_drop x R w : J sd u (x :: R) w -> ptr w sd x = Some u -> J sd u R w.
+Proof.
+  intros [A B C D E F G H K] P. constructor; auto.
+  - intros v y HI. destruct (A v y HI) as [Q|[Q [<-|R']]]; auto. subst. now left.
+  - intros y Hy. apply K. now right.
+Qed.
+
+Lemma redock_ptr_real x n w : S_ n <> x -> ptr (redock w sd u x) sd (S_ n) = ptr w sd (S_ n).
+Proof.
+  intro N. unfold redock. destruct (ptr w sd x) as [v|]; [|unfold dock; now rewrite ptr_upd_ptr_neq].
+  destruct (v =? u); [reflexivity|].
+  destruct (mem x (ports w sd v)); [|unfold dock; now rewrite ptr_upd_ptr_neq].
+  unfold dock. rewrite ptr_upd_ptr_neq by assumption.
+  unfold vacate, new_missing. cbn [ports bump_fresh upd_ptr].
+  destruct (index_of x (ports w sd v)); unfold undock, upd_ports, upd_ptr, bump_fresh; cbn [ptr];
+    rewrite ?side_eqb_refl, ?side_eqb_other'; cbn [andb];
+    try (apply obj_eqb_neq in N; rewrite N); reflexivity.
+Qed.
+
+(* ---- the three kinds of constructor items, acting on the virtual list acc ++ T *)
+Lemma step_real w acc T n :
+  Jv [] (acc ++ T) w -> u < nunits w -> n < nreal w -> ptr w sd (S_ n) <> Some u ->
+  Jv [] (acc ++ [S_ n] ++ T) (redock w sd u (S_ n)) /\
+  frame (other sd) w (redock w sd u (S_ n)) /\ stat w (redock w sd u (S_ n)) /\
+  ports (redock w sd u (S_ n)) sd u = ports w sd u.
+Proof.
+  intros HJ Hu Hn Np.
+  assert (NI : ~ In (S_ n) (acc ++ T)).
+  { intro HI. apply Np. destruct (J_ptr _ _ _ _ HJ u (S_ n)) as [Q|[_ []]]; [|exact Q].
+    now rewrite ports_upd_ports_eq. }
+  destruct (redock_misc sd u (S_ n) w) as (Fr & St & Pu).
+  split; [|auto]. apply redock_Jv; auto. apply Jv_add; auto.
+Qed.
+
+Lemma step_newM w acc T w1 m : new_missing w sd u = (w1, m) ->
+  Jv [] (acc ++ T) w -> u < nunits w ->
+  Jv [] (acc ++ [m] ++ T) w1 /\ frame (other sd) w w1 /\ stat w w1 /\ ports w1 sd u = ports w sd u /\
+  m = M_ (fresh w) /\ (forall y, y <> m -> ptr w1 sd y = ptr w sd y).
+Proof.
+  intros NM HJ Hu. unfold Jv in *.
+  assert (NM' : new_missing (upd_ports w sd u (acc ++ T)) sd u = (upd_ports w1 sd u (acc ++ T), m)).
+  { rewrite new_missing_comm, NM. reflexivity. }
+  destruct (new_missing_J sd u [] _ u _ _ HJ Hu NM') as (J1 & Om & Nm & St & Fr & Pm & Po & Pp & Em).
+  pose proof (frame_new_missing sd w u) as FN. rewrite NM in FN. simpl in FN.
+  destruct (new_missing_spec _ _ _ _ _ NM) as (Hm & Hp & Hpm & Hpo & Hf & Hr & Hn & Hs & Hfx).
+  split; [|split; [exact FN | split; [constructor; auto; lia | split; [apply Hp | split; [exact Hm | exact Hpo]]]]].
+  eapply weq_J; [apply (upd_ports_twice sd u (acc ++ T))|].
+  apply (J_R_drop m []); [|exact Pm].
+  apply J_add; [exact J1 | simpl; rewrite Hn; exact Hu | apply ports_upd_ports_eq | | exact Om].
+  specialize (Nm u). now rewrite ports_upd_ports_eq in Nm.
+Qed.
+
+Lemma step_newS w acc T :
+  Jv [] (acc ++ T) w -> u < nunits w ->
+  let w1 := fst (new_stream_docked w sd u) in let s := S_ (nreal w) in
+  snd (new_stream_docked w sd u) = s /\
+  Jv [] (acc ++ [s] ++ T) w1 /\ frame (other sd) w w1 /\ stat2 w w1 /\ ports w1 sd u = ports w sd u /\
+  (forall y, y <> s -> ptr w1 sd y = ptr w sd y).
+Proof.
+  intros HJ Hu. unfold new_stream_docked. cbn [fst snd]. split; [reflexivity|].
+  set (s := S_ (nreal w)). unfold Jv in *.
+  set (W := upd_ports w sd u (acc ++ T)) in *.
+  assert (J1 : J sd u [] (bump_real W)).
+  { destruct HJ as [A B C D E F G H K]. constructor; auto.
+    - intros v y HI. eapply okP_mono; [| |eapply E; eauto]; cbn [nreal fresh bump_real]; lia.
+    - intros n L. apply F. cbn [nreal bump_real] in L. lia. }
+  assert (Ns : ~ In s (acc ++ T)).
+  { intro HI. assert (Q : obj_okP W s) by (apply (J_ok _ _ _ _ HJ u); unfold W; now rewrite ports_upd_ports_eq).
+    simpl in Q. lia. }
+  assert (J2 : J sd u [s] (upd_ports (bump_real W) sd u (acc ++ [s] ++ T))).
+  { apply J_add; [exact J1 | exact Hu | exact (ports_upd_ports_eq sd w u (acc ++ T)) | exact Ns |].
+    unfold s, W. simpl. lia. }
+  assert (J3 : J sd u [] (dock (upd_ports (bump_real W) sd u (acc ++ [s] ++ T)) sd u s)).
+  { apply dock_J; [exact J2 | exact Hu | unfold s, W; simpl; lia |]. intros v N HI. rewrite ports_upd_ports_neq in HI by assumption.
+    assert (Q : obj_okP W s) by (eapply (J_ok _ _ _ _ HJ v); exact HI). simpl in Q. lia. }
+  split; [|split; [|split; [|split]]].
+  - eapply weq_J; [|exact J3]. constructor; intros; try reflexivity.
+    unfold W, dock, bump_real, upd_ports, upd_ptr; simpl. destruct (side_eqb s0 sd && (v =? u)); reflexivity.
+  - unfold dock. eapply frame_trans; [|apply frame_upd_ptr]. constructor; simpl; auto.
+  - constructor; simpl; auto.
+  - reflexivity.
+  - intros y N. unfold dock. now rewrite ptr_upd_ptr_neq.
+Qed.
+End Ctor.
+
+Section Ctor2.
+Variable sd : side.
+Variable u : nat.
+
+Definition items_ok (w : world) (its : list item) : Prop :=
+  NoDup (item_reals its) /\ forall n, In (S_ n) (item_reals its) -> n < nreal w /\ ptr w sd (S_ n) <> Some u.
+
+Definition norm_item (it : item) : item := match it with INone => INew | i => i end.
+
+Lemma fixed_as_var its : forall w, init_items_fixed w sd u its = init_items_var w sd u (map norm_item its).
+Proof.
+  induction its as [|it t IH]; intro w; [reflexivity|]. cbn [init_items_fixed init_items_var map].
+  destruct it; cbn [norm_item]; try (rewrite IH; reflexivity).
+  - destruct (new_stream_docked w sd u) as [w1 x]. now rewrite IH.
+  - destruct (new_stream_docked w sd u) as [w1 x]. now rewrite IH.
+Qed.
+Lemma item_reals_norm its : item_reals (map norm_item its) = item_reals its.
+Proof. induction its as [|it t IH]; [reflexivity|]. unfold item_reals in *. simpl. rewrite IH. now destruct it. Qed.
+Lemma news_as_var n : forall w, new_streams_docked w sd u n = init_items_var w sd u (repeat INew n).
+Proof.
+  induction n as [|n IH]; intro w; [reflexivity|]. cbn [new_streams_docked repeat init_items_var].
+  destruct (new_stream_docked w sd u) as [w1 x]. now rewrite IH.
+Qed.
+Lemma item_reals_repeat n : item_reals (repeat INew n) = [].
+Proof. induction n; [reflexivity|]. unfold item_reals in *. simpl. exact IHn. Qed.
+
+Lemma init_items_var_J its : forall w acc T,
+  Jv sd u [] (acc ++ T) w -> u < nunits w -> items_ok w its ->
+  Jv sd u [] ((acc ++ snd (init_items_var w sd u its)) ++ T) (fst (init_items_var w sd u its)) /\
+  frame (other sd) w (fst (init_items_var w sd u its)) /\ stat2 w (fst (init_items_var w sd u its)) /\
+  length (snd (init_items_var w sd u its)) = length its /\
+  ports (fst (init_items_var w sd u its)) sd u = ports w sd u.
+Proof.
+  induction its as [|it t IH]; intros w acc T HJ Hu [ND Ok].
+  - simpl. rewrite app_nil_r. split; [exact HJ|]. split; [apply frame_refl|]. split; [apply stat2_refl | auto].
+  - cbn [init_items_var].
+    assert (STEP : exists w1 x, (match it with
+                                 | IReal n => (redock w sd u (S_ n), S_ n)
+                                 | INone => new_missing w sd u
+                                 | INew => new_stream_docked w sd u
+                                 end) = (w1, x) /\
+              Jv sd u [] (acc ++ [x] ++ T) w1 /\ frame (other sd) w w1 /\ stat2 w w1 /\
+              ports w1 sd u = ports w sd u /\ items_ok w1 t).
+    { destruct it as [|n|].
+      - destruct (step_newS sd u w acc T HJ Hu) as (Es & J1 & Fr & St & Pp & Po).
+        exists (fst (new_stream_docked w sd u)), (S_ (nreal w)).
+        split; [rewrite <- Es; now destruct (new_stream_docked w sd u)|].
+        split; [exact J1|]. split; [exact Fr|]. split; [exact St|]. split; [exact Pp|].
+        split; [exact ND|]. intros n Hn. destruct (Ok n Hn) as [L Np]. split.
+        + destruct St as [_ B _ _ _]. lia.
+        + rewrite Po; [exact Np|]. intro Q. inversion Q. lia.
+      - unfold item_reals in ND, Ok. simpl in ND, Ok. inversion ND as [|? ? NI ND']; subst.
+        destruct (Ok n (or_introl eq_refl)) as [Ln Np].
+        destruct (step_real sd u w acc T n HJ Hu Ln Np) as (J1 & Fr & St & Pp).
+        exists (redock w sd u (S_ n)), (S_ n). split; [reflexivity|].
+        split; [exact J1|]. split; [exact Fr|]. split; [apply stat_stat2; exact St|]. split; [exact Pp|].
+        split; [exact ND'|]. intros k Hk. destruct (Ok k (or_intror Hk)) as [L Npk]. split.
+        + destruct St as [_ B _ _ _]. lia.
+        + rewrite redock_ptr_real; [exact Npk|]. intro Q. inversion Q. subst. contradiction.
+      - destruct (new_missing w sd u) as [w1 m] eqn:NM.
+        destruct (step_newM sd u w acc T w1 m NM HJ Hu) as (J1 & Fr & St & Pp & Em & Po).
+        exists w1, m. split; [reflexivity|].
+        split; [exact J1|]. split; [exact Fr|]. split; [apply stat_stat2; exact St|]. split; [exact Pp|].
+        split; [exact ND|]. intros n Hn. destruct (Ok n Hn) as [L Np]. split.
+        + destruct St as [_ B _ _ _]. lia.
+        + rewrite Po; [exact Np|]. rewrite Em. discriminate. }
+    destruct STEP as (w1 & x & E1 & J1 & Fr1 & St1 & Pp1 & Ok1). rewrite E1.
+    assert (Hu1 : u < nunits w1) by (destruct St1 as [A _ _ _ _]; lia).
+    rewrite app_assoc in J1.
+    destruct (IH w1 (acc ++ [x]) T J1 Hu1 Ok1) as (J2 & Fr2 & St2 & L2 & Pp2).
+    destruct (init_items_var w1 sd u t) as [w2 xs]. cbn [fst snd] in *.
+    replace ((acc ++ [x]) ++ xs) with (acc ++ x :: xs) in J2 by (rewrite <- app_assoc; reflexivity).
+    split; [exact J2|]. split; [eapply frame_trans; eauto|]. split; [eapply stat2_trans; eauto|].
+    split; [simpl; congruence | congruence].
+Qed.
+
+Lemma new_missings_M n : forall w, forall x, In x (snd (new_missings w sd u n)) -> is_real x = false.
+Proof.
+  induction n as [|n IH]; intros w x; simpl; [tauto|].
+  destruct (new_missings (bump_fresh (upd_ptr (upd_ptr w sd (M_ (fresh w)) (Some u)) (other sd) (M_ (fresh w)) None)) sd u n)
+    as [w2 ms] eqn:E. simpl. intros [<-|H]; [reflexivity|]. eapply IH. rewrite E. exact H.
+Qed.
+
+Lemma J_drop w D T : J sd u [] w -> ports w sd u = D ++ T -> (forall x, In x D -> is_real x = false) ->
+  Jv sd u [] T w.
+Proof.
+  intros [A B C D' E F G H K] EL Hd. unfold Jv. constructor.
+  - intros v y. rewrite ports_upd_ports. destruct (v =? u) eqn:Ev; [|apply A].
+    apply Nat.eqb_eq in Ev. subst v. intro HI. apply A. rewrite EL. apply in_or_app. now right.
+  - intros v n Q. apply B in Q. rewrite ports_upd_ports. destruct (v =? u) eqn:Ev; [|exact Q].
+    apply Nat.eqb_eq in Ev. subst v. rewrite EL in Q. apply in_app_or in Q. destruct Q as [Q|Q]; [|exact Q].
+    apply Hd in Q. discriminate.
+  - intro v. rewrite ports_upd_ports. destruct (v =? u); [|apply C].
+    pose proof (C u) as ND. rewrite EL in ND. apply NoDup_app_iff in ND. tauto.
+  - intros v N. rewrite ports_upd_ports_neq by assumption. now apply D'.
+  - intros v y. rewrite ports_upd_ports. destruct (v =? u); [|apply E].
+    intro HI. apply (E u). rewrite EL. apply in_or_app. now right.
+  - exact F.
+  - intros v L. rewrite ports_upd_ports. simpl in L. destruct (v =? u) eqn:Ev; [|now apply G].
+    apply Nat.eqb_eq in Ev. subst v. specialize (G u L). rewrite EL in G. apply app_eq_nil in G. tauto.
+  - exact H.
+  - intros x [].
+Qed.
+End Ctor2.
+
+Lemma firstn_In' {A} (x : A) n l : In x (firstn n l) -> In x l.
+Proof. intro H. rewrite <- (firstn_skipn n l). apply in_or_app. now left. Qed.
+
+Section Ctor3.
+Variable sd : side.
+Variable u : nat.
+
+Lemma new_missings_ptr_real n k : forall w,
+  ptr (fst (new_missings w sd u n)) sd (S_ k) = ptr w sd (S_ k).
+Proof.
+  induction n as [|n IH]; intro w; [reflexivity|]. cbn [new_missings].
+  destruct (new_missing w sd u) as [w1 m] eqn:NM.
+  destruct (new_missing_spec _ _ _ _ _ NM) as (Hm & _ & _ & Hpo & _).
+  specialize (IH w1). destruct (new_missings w1 sd u n) as [w2 ms]. cbn [fst] in *.
+  rewrite IH. apply Hpo. rewrite Hm. discriminate.
+Qed.
+Lemma init_missing_ptr_real k w : ptr (init_missing w sd u) sd (S_ k) = ptr w sd (S_ k).
+Proof.
+  unfold init_missing. pose proof (new_missings_ptr_real (psize w sd u) k w) as H.
+  destruct (new_missings w sd u (psize w sd u)) as [w1 ms]. exact H.
+Qed.
+Lemma init_missing_all_M w x : In x (ports (init_missing w sd u) sd u) -> is_real x = false.
+Proof.
+  unfold init_missing. pose proof (new_missings_M sd u (psize w sd u) w x) as H.
+  destruct (new_missings w sd u (psize w sd u)) as [w1 ms]. rewrite ports_upd_ports_eq. exact H.
+Qed.
+
+Lemma items_place its wb :
+  J sd u [] wb -> (forall x, In x (firstn (length its) (ports wb sd u)) -> is_real x = false) ->
+  u < nunits wb -> items_ok sd u wb its ->
+  let r := init_items_var wb sd u its in
+  J sd u [] (upd_ports (fst r) sd u (snd r ++ skipn (length its) (ports (fst r) sd u))) /\
+  frame (other sd) wb (fst r) /\ stat2 wb (fst r) /\ length (snd r) = length its /\
+  ports (fst r) sd u = ports wb sd u.
+Proof.
+  intros HJ HM Hu Ok. cbv zeta.
+  set (N := length its) in *. set (P := ports wb sd u) in *.
+  assert (EP : ports wb sd u = firstn N P ++ skipn N P) by (symmetry; apply firstn_skipn).
+  pose proof (J_drop sd u wb _ _ HJ EP HM) as J0.
+  destruct (init_items_var_J sd u its wb [] (skipn N P) J0 Hu Ok) as (J1 & Fr & St & Ln & Pp).
+  rewrite Pp. fold P. simpl app in J1.
+  split; [exact J1|]. split; [exact Fr|]. split; [exact St|]. split; [exact Ln | reflexivity].
+Qed.
+
+Definition size_ok (w : world) (f : form) : Prop :=
+  pfixed w sd u = true ->
+  match f with FOne _ => 1 <= psize w sd u | FList its => length its <= psize w sd u | _ => True end.
+
+Lemma items_ok_norm w its : items_ok sd u w its -> items_ok sd u w (map norm_item its).
+Proof. unfold items_ok. now rewrite item_reals_norm. Qed.
+
+Lemma init_ports_Inv f w w' : J sd u [] w -> ports w sd u = [] -> u < nunits w ->
+  items_ok sd u w (form_items f) -> size_ok w f -> init_ports w sd u f = (w', None) ->
+  InvS sd w' /\ frame (other sd) w w' /\ stat2 w w'.
+Proof.
+  intros HJ E0 Hu Ok Sz EQ.
+  (* the three ways the list is finally written *)
+  assert (VAR : forall its, items_ok sd u w its ->
+            (pfixed w sd u = true -> length its = psize w sd u) ->
+            let r := init_items_var w sd u its in
+            InvS sd (upd_ports (fst r) sd u (snd r)) /\ frame (other sd) w (upd_ports (fst r) sd u (snd r)) /\
+            stat2 w (upd_ports (fst r) sd u (snd r))).
+  { intros its Oki Len. cbv zeta.
+    destruct (items_place its w HJ) as (J1 & Fr & St & Ln & Pp); auto.
+    { rewrite E0. rewrite firstn_nil. intros x []. }
+    rewrite Pp, E0, skipn_nil, app_nil_r in J1.
+    split; [|split].
+    - eapply J_Inv; [exact J1|]. rewrite ports_upd_ports_eq. cbn [pfixed psize upd_ports].
+      destruct St as [_ _ _ S4 S5]. rewrite S4, S5, Ln. exact Len.
+    - eapply frame_trans; [exact Fr | apply frame_upd_ports].
+    - destruct St. constructor; auto. }
+  assert (MISS : InvS sd (init_missing w sd u) /\ frame (other sd) w (init_missing w sd u) /\ stat2 w (init_missing w sd u)).
+  { destruct (init_missing_fresh sd u w HJ E0 Hu) as (J1 & L1 & Fr1 & St1).
+    split; [|split; [exact Fr1 | apply stat_stat2; exact St1]].
+    eapply J_Inv; [exact J1|]. intros _. rewrite L1. destruct St1 as [_ _ _ S4 _]. now rewrite S4. }
+  assert (FIX : forall its, pfixed w sd u = true -> length its <= psize w sd u -> items_ok sd u w its ->
+            let w0 := init_missing w sd u in let r := init_items_fixed w0 sd u its in
+            let wf := upd_ports (fst r) sd u (snd r ++ skipn (length its) (ports (fst r) sd u)) in
+            InvS sd wf /\ frame (other sd) w wf /\ stat2 w wf).
+  { intros its Fx Len Oki. cbv zeta. rewrite fixed_as_var.
+    destruct (init_missing_fresh sd u w HJ E0 Hu) as (J1 & L1 & Fr1 & St1).
+    set (w0 := init_missing w sd u) in *.
+    assert (Hu0 : u < nunits w0) by (destruct St1 as [A _ _ _ _]; lia).
+    assert (Ok0 : items_ok sd u w0 (map norm_item its)).
+    { apply items_ok_norm. destruct Oki as [ND Okn]. split; [exact ND|]. intros n Hn. destruct (Okn n Hn) as [L Np].
+      split; [destruct St1 as [_ B _ _ _]; lia|]. unfold w0. now rewrite init_missing_ptr_real. }
+    destruct (items_place (map norm_item its) w0 J1) as (J2 & Fr2 & St2 & Ln2 & Pp2); auto.
+    { intros x Hx. apply (init_missing_all_M w). fold w0. eapply firstn_In'. exact Hx. }
+    rewrite map_length in *.
+    split; [|split].
+    - eapply J_Inv; [exact J2|]. intros _. rewrite ports_upd_ports_eq. cbn [psize upd_ports].
+      rewrite app_length, Ln2, skipn_length, Pp2, L1.
+      destruct St2 as [_ _ _ S4 _]. destruct St1 as [_ _ _ S4' _]. rewrite S4, S4'. lia.
+    - eapply frame_trans; [exact Fr1|]. eapply frame_trans; [exact Fr2 | apply frame_upd_ports].
+    - eapply stat2_trans; [apply stat_stat2; exact St1|]. destruct St2. constructor; auto. }
+  unfold init_ports in EQ. unfold size_ok in Sz.
+  destruct f as [| |it|its]; cbn [form_items] in Ok.
+  - (* None *) destruct (pfixed w sd u); inversion EQ; subst; exact MISS.
+  - (* () *) rewrite news_as_var in EQ.
+    specialize (VAR (repeat INew (psize w sd u))). cbv zeta in VAR.
+    destruct (init_items_var w sd u (repeat INew (psize w sd u))) as [w1 ss]. cbn [fst snd] in VAR.
+    inversion EQ; subst. apply VAR.
+    + split; [rewrite item_reals_repeat; constructor | rewrite item_reals_repeat; intros n []].
+    + intros _. apply repeat_length.
+  - (* a single stream or name *)
+    destruct (pfixed w sd u) eqn:Fx.
+    + specialize (Sz eq_refl). destruct (psize w sd u =? 0) eqn:Z; [apply Nat.eqb_eq in Z; lia|].
+      specialize (FIX [it] eq_refl Sz Ok). cbv zeta in FIX.
+      destruct (init_items_fixed (init_missing w sd u) sd u [it]) as [w1 xs]. cbn [fst snd length] in FIX.
+      inversion EQ; subst. exact FIX.
+    + specialize (VAR [norm_item it]). cbv zeta in VAR. unfold norm_item in VAR.
+      destruct (init_items_var w sd u [match it with INone => INew | i => i end]) as [w1 xs]. cbn [fst snd] in VAR.
+      inversion EQ; subst. apply VAR; [|discriminate].
+      change [match it with INone => INew | i => i end] with (map norm_item [it]). now apply items_ok_norm.
+  - (* a list *)
+    destruct (pfixed w sd u) eqn:Fx.
+    + specialize (Sz eq_refl). destruct (psize w sd u <? length its) eqn:Z; [apply Nat.ltb_lt in Z; lia|].
+      specialize (FIX its eq_refl Sz Ok). cbv zeta in FIX.
+      destruct (init_items_fixed (init_missing w sd u) sd u its) as [w1 xs]. cbn [fst snd] in FIX.
+      inversion EQ; subst. exact FIX.
+    + specialize (VAR its Ok). cbv zeta in VAR.
+      destruct (init_items_var w sd u its) as [w1 xs]. cbn [fst snd] in VAR.
+      inversion EQ; subst. apply VAR. discriminate.
+Qed.
+End Ctor3.
+
+Lemma pre_form_ok sd u w0 fixed size f :
+  pfixed w0 sd u = fixed -> psize w0 sd u = size -> pre_form fixed size f = true ->
+  NoDup (item_reals (form_items f)) /\ size_ok sd u w0 f.
+Proof.
+  intros Fx Sz Pre. unfold pre_form in Pre. apply andb_true_iff in Pre. destruct Pre as [P1 P2].
+  split; [now apply nodupb_NoDup|]. unfold size_ok. rewrite Fx, Sz. intro Q. subst fixed. rewrite Q in P2. cbn [negb orb] in P2.
+  destruct f; auto; now apply Nat.leb_le.
+Qed.
+
+Lemma new_unit_Inv w nin nout fin fout fi fo :
+  Inv w -> wfb w (ONewUnit nin nout fin fout fi fo) = true -> preb w (ONewUnit nin nout fin fout fi fo) = true ->
+  Inv (fst (new_unit w nin nout fin fout fi fo)).
+Proof.
+  intros [HI HO] Wf Pre. cbn [wfb preb] in Wf, Pre.
+  apply andb_true_iff in Wf. destruct Wf as [Wi Wo]. apply andb_true_iff in Pre. destruct Pre as [Pi Po].
+  rewrite forallb_forall in Wi, Wo.
+  unfold new_unit. set (u := nunits w).
+  set (w0 := mkW (ports w)
+                (fun sd v => if v =? u then (match sd with SIn => nin | SOut => nout end) else psize w sd v)
+                (fun sd v => if v =? u then (match sd with SIn => fin | SOut => fout end) else pfixed w sd v)
+                (ptr w) (fresh w) (nreal w) (S u)).
+  assert (J0 : forall sd, InvS sd w -> J sd u [] w0).
+  { intros sd [A B C D E F G H]. constructor.
+    - intros v x HIn. left. apply A. exact HIn.
+    - exact B.
+    - exact C.
+    - intros v N. unfold w0; simpl. apply Nat.eqb_neq in N. rewrite N. apply D.
+    - exact E.
+    - exact F.
+    - intros v L. apply G. simpl in L. unfold u in *. lia.
+    - intros x v P. simpl. apply H in P. unfold u. lia.
+    - intros x []. }
+  assert (P0 : forall sd, InvS sd w -> ports w0 sd u = []).
+  { intros sd IS. apply (I_units _ _ IS). unfold u. lia. }
+  assert (Hu0 : u < nunits w0) by (simpl; lia).
+  assert (NP : forall sd, InvS sd w -> forall n, ptr w0 sd (S_ n) <> Some u).
+  { intros sd IS n Q. apply (I_uptr _ _ IS) in Q. unfold u in Q. lia. }
+  destruct (pre_form_ok SIn u w0 fin nin fi) as [NDi Szi]; auto; try (simpl; now rewrite Nat.eqb_refl).
+  destruct (pre_form_ok SOut u w0 fout nout fo) as [NDo Szo]; auto; try (simpl; now rewrite Nat.eqb_refl).
+  destruct (init_ports w0 SIn u fi) as [w1 [e|]] eqn:E1; [cbn; split; assumption|].
+  destruct (init_ports_Inv SIn u fi w0 w1 (J0 SIn HI) (P0 SIn HI) Hu0) as (I1 & Fr1 & St1); auto.
+  { split; [exact NDi|]. intros n Hn. split; [|apply (NP SIn HI)].
+    specialize (Wi _ Hn). apply obj_ok_P in Wi. exact Wi. }
+  assert (Hu1 : u < nunits w1) by (destruct St1 as [A _ _ _ _]; lia).
+  assert (JO1 : J SOut u [] w1) by (eapply frame_J; [exact Fr1 | exact (J0 SOut HO)]).
+  assert (PO1 : ports w1 SOut u = []) by (rewrite (F_ports _ _ _ Fr1); exact (P0 SOut HO)).
+  destruct (init_ports w1 SOut u fo) as [w2 [e|]] eqn:E2; [cbn; split; assumption|].
+  destruct (init_ports_Inv SOut u fo w1 w2 JO1 PO1 Hu1) as (I2 & Fr2 & St2); auto.
+  { split; [exact NDo|]. intros n Hn. specialize (Wo _ Hn). apply obj_ok_P in Wo. split.
+    - destruct St1 as [_ B _ _ _]. simpl in Wo, B. lia.
+    - rewrite (F_ptr _ _ _ Fr1); [apply (NP SOut HO) | exact Wo]. }
+  { unfold size_ok in *. destruct St1 as [_ _ _ S4 S5]. rewrite S4, S5. exact Szo. }
+  cbn. split; [|exact I2]. eapply frame_InvS; [exact Fr2 | exact I1].
+Qed.
+
+(* ================================================================ every operation, every history *)
+Theorem step_Inv_all w o : Inv w -> wfb w o = true -> preb w o = true -> Inv (fst (step w o)).
+Proof.
+  intros HI Wf Pre. destruct (proven o) eqn:E.
+  - now apply step_Inv.
+  - destruct o; try discriminate.
+    + (* list.empty() *) cbn [wfb] in Wf. apply unit_ok_lt in Wf. unfold step. cbn [step_with].
+      apply (good_Good sd w _ HI). apply empty_good; auto. apply (InvS_side sd w HI).
+    + (* unit.replace_with(None) *) destruct v as [v|]; [discriminate|]. cbn [wfb preb] in Wf, Pre.
+      apply andb_true_iff in Wf. destruct Wf as [Wf _]. apply unit_ok_lt in Wf.
+      unfold step. cbn [step_with]. now apply replace_with_none_Good.
+    + (* Unit(ins=..., outs=...) *) unfold step. cbn [step_with]. now apply new_unit_Inv.
+Qed.
+
+Fixpoint within_pre (w : world) (ops : list op) : Prop :=
+  match ops with
+  | [] => True
+  | o :: t => wfb w o = true /\ preb w o = true /\ within_pre (fst (step w o)) t
+  end.
+
+Theorem history_Inv_all ops : forall w, Inv w -> within_pre w ops -> Inv (run w ops).
+Proof.
+  unfold run. induction ops as [|o t IH]; intros w HI HW; simpl.
+  - exact HI.
+  - destruct HW as (Wf & Pre & HW). apply IH; [|exact HW]. now apply step_Inv_all.
+Qed.
+
 (* ================================================================ a small universe used by the examples in Props.v *)
 Definition setup3 : list op :=
   [ONewUnit 1 1 true true FNone FNone; ONewUnit 2 1 false true FNone FNone; ONewUnit 2 2 true false FNone FNone].
 Definition U3 : world := run (empty_world 5) setup3.
-Lemma Inv_after pre : within (empty_world 5) (setup3 ++ pre) -> Inv (run U3 pre).
+Lemma Inv_after pre : within_pre (empty_world 5) (setup3 ++ pre) -> Inv (run U3 pre).
 Proof.
-  intro H. unfold U3, run. rewrite <- fold_left_app. apply (history_Inv (setup3 ++ pre)); [apply Inv_empty | exact H].
+  intro H. unfold U3, run. rewrite <- fold_left_app. apply (history_Inv_all (setup3 ++ pre)); [apply Inv_empty | exact H].
 Qed.
